@@ -20,9 +20,10 @@ from pathlib import Path
 
 VERIF = Path(__file__).resolve().parent.parent
 REPO = Path(os.environ.get("PYSERSIC_REPO", "/repo"))
-OUT = VERIF / "lean" / "PysersicModel" / "Gen" / "Consts.lean"
+LEAN_DIR = Path(os.environ.get("VERIF_LEAN_DIR", str(VERIF / "lean")))
+OUT = LEAN_DIR / "PysersicModel" / "Gen" / "Consts.lean"
 FALLBACK = VERIF / "tools" / "consts_fallback.json"
-REPORT = VERIF / "lean" / ".lake" / "gen_report.json"
+REPORT = LEAN_DIR / ".lake" / "gen_report.json"
 
 
 class Miss(Exception):
